@@ -39,8 +39,34 @@ func (e *Exec) digest(kind string, size int, data []*Term) []Value {
 	for i := range out {
 		out[i] = e.freshVar(kind, 8)
 	}
+	// functional consistency with every earlier input of the same length
+	// (Ackermann): byte-wise equal inputs have equal digests. Without it a model
+	// may give two different term sequences the same bytes and different
+	// digests, a counterexample no real hash function reproduces.
+	tc := e.tc
+	for _, prev := range e.digestLog {
+		if prev.kind != kind || len(prev.data) != len(data) {
+			continue
+		}
+		same := tc.True
+		for i := range data {
+			same = tc.BAnd(same, tc.Eq(data[i], prev.data[i]))
+		}
+		eqOut := tc.True
+		for i := range out {
+			eqOut = tc.BAnd(eqOut, tc.Eq(out[i].(*Term), prev.out[i].(*Term)))
+		}
+		e.assertPC(tc.BOr(tc.BNot(same), eqOut))
+	}
+	e.digestLog = append(e.digestLog, digestRec{kind: kind, data: append([]*Term(nil), data...), out: out})
 	e.digests[key] = out
 	return append([]Value(nil), out...)
+}
+
+type digestRec struct {
+	kind string
+	data []*Term
+	out  []Value
 }
 
 func (eng *Engine) initStubsHash() {
